@@ -499,6 +499,96 @@ pub fn gen_valid(rng: &mut StdRng, nsyms: usize, which: usize) -> GenStream {
     GenStream { data, opt, origin: format!("walk/{}syms/style{}", nsyms, style), bounds }
 }
 
+/// A valid stream whose end marker is as expensive as valid symbols get without gigabytes of history:
+/// every adaptive context on the marker's path is first trained towards the opposite bit, deepest
+/// context first (a context only moves when it is used), with pb = 4 so that the marker's
+/// is_match[state 0][pos_state] can be trained separately from the trainers' own contexts.
+/// Returns the stream and the byte cost of the marker.
+pub fn gen_expensive_eos(rng: &mut StdRng, reps: usize, far: bool) -> (GenStream, u32) {
+    let p = Props { lc: 0, lp: 0, pb: 4 };
+    let pst: usize = 5; // pos_state at which the marker will be coded
+    let mut cs = coding::CS::default();
+    let mut prog: Vec<Sym> = vec![];
+    let mut push = |cs: &mut coding::CS, prog: &mut Vec<Sym>, s: Sym| {
+        assert!(cs.valid(&s), "trainer produced an invalid symbol {:?} at {}", s, cs.out.len());
+        cs.apply(&s);
+        prog.push(s);
+    };
+    // history to copy from
+    for i in 0..300usize {
+        push(&mut cs, &mut prog, Sym::Lit { b: (i * 7 % 251) as u8 });
+    }
+    // go to pos_state `pst` with a filler MATCH (keeps the state >= 7 so that is_match[0][*] is not used)
+    let align = |cs: &mut coding::CS, prog: &mut Vec<Sym>, push: &mut dyn FnMut(&mut coding::CS, &mut Vec<Sym>, Sym)| {
+        let cur = cs.out.len() % 16;
+        let mut f = (pst + 16 - cur) % 16;
+        if f == 1 {
+            f = 17;
+        }
+        if f >= 2 {
+            push(cs, prog, Sym::Match { d: 3, n: f as u32 });
+        }
+    };
+    // Phase A: length low-tree at pos_state pst, path 000: train "00"->1 (len 3), "0"->1 (len 4), root->1 (len 6)
+    for n in [3u32, 4, 6] {
+        for _ in 0..reps {
+            align(&mut cs, &mut prog, &mut push);
+            push(&mut cs, &mut prog, Sym::Match { d: 2, n });
+        }
+    }
+    // Phase B: align tree (reverse), path 1111: nodes 15, 7, 3, 1 trained with low distance bits 0111, 0011, 0001, 0000
+    for low in [7u64, 3, 1, 0] {
+        for k in 0..reps {
+            let d0 = 128 + 16 * (k as u64 % 8) + low; // slot 14/15: 3 direct bits + align
+            push(&mut cs, &mut prog, Sym::Match { d: d0 + 1, n: 2 });
+        }
+    }
+    // Phase C (far): position-slot tree of length state 0, node "1": slots 32..47 need distances >= 65536
+    if far {
+        while cs.out.len() < 70000 {
+            push(&mut cs, &mut prog, Sym::Match { d: 1, n: 273 });
+        }
+        for k in 0..reps {
+            push(&mut cs, &mut prog, Sym::Match { d: 65537 + (k as u64 % 50) * 16 + 15, n: 2 });
+        }
+    }
+    // Phase D: len.choice -> 1 with long matches (length state 3, small distances: no align bits)
+    for _ in 0..reps {
+        push(&mut cs, &mut prog, Sym::Match { d: 5, n: 40 });
+    }
+    // Phase E: is_rep[state 0] -> 1: three literals (state 7 -> 4 -> 1 -> 0), then a rep match, never at pos_state pst
+    for _ in 0..reps {
+        for _ in 0..3 {
+            push(&mut cs, &mut prog, Sym::Lit { b: rng.gen() });
+        }
+        if cs.out.len() % 16 == pst {
+            push(&mut cs, &mut prog, Sym::Lit { b: rng.gen() });
+        }
+        push(&mut cs, &mut prog, Sym::Rep { r: 0, n: 2 });
+    }
+    // Phase F: is_match[0][pst] -> 0 with literals in state 0 (all pos_states get trained, harmless)
+    for _ in 0..(16 * reps + 3) {
+        push(&mut cs, &mut prog, Sym::Lit { b: rng.gen() });
+    }
+    while cs.out.len() % 16 != pst {
+        push(&mut cs, &mut prog, Sym::Lit { b: rng.gen() });
+    }
+    assert_eq!(cs.st, 0);
+    prog.push(Sym::Eos);
+    let enc = coding::encode_program(&prog, p);
+    let cost = enc.costs.last().unwrap().bytes;
+    let mut data = lzma_header(p, 1 << 20, Some(u64::MAX));
+    let hl = data.len();
+    data.extend_from_slice(&enc.payload);
+    let mut bounds = vec![];
+    let mut cb = hl + 5;
+    for c in &enc.costs {
+        cb += c.bytes as usize;
+        bounds.push(cb);
+    }
+    (GenStream { data, opt: Opt::ReadFromHeader, origin: format!("expensive-eos/{}B", cost), bounds }, cost)
+}
+
 pub fn gen_cuts(rng: &mut StdRng, g: &GenStream, strategy: usize) -> Vec<usize> {
     let n = g.data.len();
     let mut cuts: Vec<usize> = match strategy % 6 {
@@ -582,6 +672,31 @@ pub fn run_c05(prop: &str, seed: u64, nstreams: usize, nsyms: usize, trace_path:
     let mut rng = StdRng::seed_from_u64(seed ^ 0x57ea);
     let mut trace: Option<Vec<String>> = trace_path.map(|_| vec![]);
     early_errors(prop, "c05", seed, rep, &mut trace);
+    // worst-case symbol: every cut position inside the most expensive symbol we can construct, and every
+    // pair (cut, cut + k): the symbol is then completed through the partial input buffer
+    for far in [false, true] {
+        let (g, cost) = gen_expensive_eos(&mut rng, 70, far);
+        rep.add(if far { "expensive_symbol_bytes_far" } else { "expensive_symbol_bytes" }, cost as u64);
+        let n = g.data.len();
+        let start = n - cost as usize;
+        let mut none = None;
+        for a in 0..=(cost as usize) {
+            for k in [0usize, 1, 2, 5, 19, 20] {
+                let mut cuts = vec![start.saturating_sub(3), start + a, (start + a + k).min(n)];
+                cuts.sort();
+                let c = StreamCase { data_hex: hex(&g.data), opt: g.opt, memlimit: None, allow_incomplete: false, cuts, origin: g.origin.clone(), mode: "c05".into(), extra_writes: vec![] };
+                check_case(&c, prop, rep, &mut none);
+            }
+        }
+        // one run traced for TLC (the shape has thousands of symbols: keep it to a single trace)
+        if !far {
+            let c = StreamCase { data_hex: hex(&g.data), opt: g.opt, memlimit: None, allow_incomplete: false, cuts: vec![start + 1, start + cost as usize / 2], origin: g.origin.clone(), mode: "c05".into(), extra_writes: vec![] };
+            check_case(&c, prop, rep, &mut trace);
+        }
+        if rep.samples.len() < 6 {
+            rep.sample(json!({"origin": g.origin, "bytes": n, "marker_cost_bytes": cost, "cuts": "every offset inside the marker x second cut {0,1,2,5,19,20} bytes later"}));
+        }
+    }
     for i in 0..nstreams {
         let ns = if i % 7 == 0 { nsyms * 4 } else { 1 + rng.gen_range(0..nsyms) };
         let g = gen_valid(&mut rng, ns, i);
@@ -594,13 +709,20 @@ pub fn run_c05(prop: &str, seed: u64, nstreams: usize, nsyms: usize, trace_path:
                 if cuts.len() > 600 {
                     continue;
                 }
+                // "for every decode option": also under memory limits (none, below / at / above what the stream needs)
+                let ml: Option<u64> = match (i + how + strat) % 5 {
+                    0 => Some(rng.gen_range(0..200)),
+                    1 => Some(rng.gen_range(200..6000)),
+                    2 => Some(1 << 30),
+                    _ => None,
+                };
                 let c = StreamCase {
                     data_hex: hex(&data),
                     opt: g.opt,
-                    memlimit: None,
+                    memlimit: ml,
                     allow_incomplete: false,
                     cuts,
-                    origin: format!("{}/{}", g.origin, mname),
+                    origin: format!("{}/{}/memlimit={:?}", g.origin, mname, ml),
                     mode: "c05".into(),
                     extra_writes: vec![],
                 };
